@@ -4,6 +4,7 @@ package main
 // oracles are evaluated online at every probe (sub-step resolution).
 
 import (
+	"encoding/json"
 	"fmt"
 	"math"
 	"os"
@@ -131,6 +132,7 @@ func runTrajectoryHook(sc *Scenario, env *Env, oc *OutputCfg, oracles []Oracle, 
 	}
 	disk := NewSimDisk()
 	out := env.RunSingle(root, w.Args(extraArgs...), hooks, disk)
+	out.Err = strings.ReplaceAll(out.Err, root, "<root>") // scratch paths differ from process to process
 	if dd := os.Getenv("VERIF_DUMP_DISK"); dd != "" {
 		os.MkdirAll(dd, 0o755)
 		for _, p := range disk.Paths() {
@@ -173,12 +175,17 @@ func runTrajectoryHook(sc *Scenario, env *Env, oc *OutputCfg, oracles []Oracle, 
 	}
 	res.WallMS = nowMS(t0)
 	res.Hash = fmt.Sprintf("%016x", hashWorld(w, sc.Bug))
+	res.Digest = disk.Digest() + "|" + out.Err
 	return res, out
 }
 
 func hashWorld(w *World, b *BuggifySpec) uint64 {
 	h := NewRNG(0x1234)
-	s := fmt.Sprintf("%+v|%+v", *w, b)
+	jb, _ := json.Marshal(struct {
+		W *World
+		B *BuggifySpec
+	}{w, b})
+	s := string(jb)
 	var x uint64 = 1469598103934665603
 	for i := 0; i < len(s); i++ {
 		x ^= uint64(s[i])
